@@ -974,3 +974,85 @@ func indexesSortedSlice(in ssa.Instruction, fn *ssa.Function, sortCall *ssa.Call
 	}
 	return false
 }
+
+// ruleErrPropagate — R-ERRPROP. In the functions reachable from the readers
+// and Patch, when a call has reported an error (`err != nil` on the error
+// result of a call) the function gives up: every path from the failing side
+// of the test ends in an error return. A failing side that merely constructs
+// an error value and falls through keeps going with the zero results of the
+// failed call (a nil JsonNode stored into a hunk, a nil path), which is what
+// C13's "error, never a crash" excludes, and hides the malformed input from
+// the caller.
+func ruleErrPropagate(w *World, r *Report, pkg *ssa.Package, tag string, exempt map[string]string) {
+	rule := "R-ERRPROP"
+	if tag != "v2" {
+		rule += "(" + tag + ")"
+	}
+	scope := reachableIn(w, pkg, panicEntries(w, pkg))
+	ea := newErrAnalysis(w)
+	var fns []*ssa.Function
+	for fn := range scope {
+		fns = append(fns, fn)
+	}
+	sort.Slice(fns, func(i, j int) bool { return fnName(fns[i]) < fnName(fns[j]) })
+	n := 0
+	for _, fn := range fns {
+		if fn.Synthetic != "" || fn.Blocks == nil || !lastIsError(fn.Signature) {
+			continue // only functions that can report the error themselves
+		}
+		k := 0
+		for _, b := range fn.Blocks {
+			cond, tE, fE, ok := branchEdges(b)
+			if !ok {
+				continue
+			}
+			bo, ok := cond.(*ssa.BinOp)
+			if !ok || (bo.Op != token.NEQ && bo.Op != token.EQL) {
+				continue
+			}
+			var ev ssa.Value
+			if isNilConst(bo.Y) && isErrorType(bo.X.Type()) {
+				ev = bo.X
+			} else if isNilConst(bo.X) && isErrorType(bo.Y.Type()) {
+				ev = bo.Y
+			} else {
+				continue
+			}
+			// the error result of a call (directly or the last element of its tuple)
+			// ... of a function of this package: its errors mean "this input is not acceptable".
+			// (Errors of external parsers are also used to classify, e.g. Atoi failing means "a key, not an index".)
+			var call *ssa.Call
+			switch x := ev.(type) {
+			case *ssa.Call:
+				call = x
+			case *ssa.Extract:
+				call, _ = x.Tuple.(*ssa.Call)
+			}
+			if call == nil {
+				continue
+			}
+			if sf := staticCallee(call); sf == nil || fnPkg(sf) != pkg.Pkg {
+				if !(call.Call.IsInvoke() && call.Call.Method.Pkg() == pkg.Pkg) {
+					continue
+				}
+			}
+			fail := tE
+			if bo.Op == token.EQL {
+				fail = fE
+			}
+			k++
+			n++
+			key := fmt.Sprintf("%s:on-error#%d", fnName(fn), k)
+			if why, ok := exempt[key]; ok {
+				r.Ok(rule, key, w.Pos(bo.Pos()), "exempt by name: "+why)
+				continue
+			}
+			r.Check(ea.errorOnly(fail.To()), rule, key, w.Pos(bo.Pos()),
+				"once the call has reported an error every path ends in an error return",
+				"after a call has reported an error the function can go on and return success: it continues with the zero results of the failed call (a nil node or path ends up in the diff or document and is dereferenced later) and the malformed input is not reported")
+		}
+	}
+	if n < 20 {
+		r.Bad(rule, tag+":instance-floor", "-", fmt.Sprintf("only %d error tests found in the read/patch call graph", n))
+	}
+}
